@@ -116,6 +116,7 @@ func (s *storeWrap) WorkloadStatusStream(ctx context.Context, app, entry, node s
 	return s.in.WorkloadStatusStream(ctx, app, entry, node, labels)
 }
 func (s *storeWrap) GetDeployStatus(ctx context.Context, app, entry string) (r map[string]int, err error) {
+	s.ic.NoteCtx("store.GetDeployStatus", ctx)
 	err = s.ic.Do("store.GetDeployStatus", false, func() error { r, err = s.in.GetDeployStatus(ctx, app, entry); return err })
 	return
 }
